@@ -24,6 +24,11 @@ var (
 	})
 )
 
+// Guard against profiles stacking each other
+const maxStackDepth = 10
+
+var stackDepth = 0
+
 type Stack struct {
 	prebuild.Base
 }
@@ -57,7 +62,21 @@ func (s Stack) Apply(opt *Option, profile string) (string, error) {
 
 	res := ""
 	for _, name := range names { // In the order given
-		stackedProfile := prebuild.RootApparmord.Join(name).MustReadFileAsString()
+		stackedFile := prebuild.RootApparmord.Join(name)
+		stackedProfile := stackedFile.MustReadFileAsString()
+
+		// The stacked profile may not have been processed yet: apply its own
+		// directives first, so that what is stacked does not depend on the
+		// order in which the profiles are processed.
+		if stackDepth >= maxStackDepth {
+			return "", fmt.Errorf("stack directives nested too deep in %s", name)
+		}
+		stackDepth++
+		stackedProfile, err := Run(stackedFile, stackedProfile)
+		stackDepth--
+		if err != nil {
+			return "", err
+		}
 		m := regRules.FindStringSubmatch(stackedProfile)
 		if len(m) < 2 {
 			return "", fmt.Errorf("no profile found in %s", name)
